@@ -44,6 +44,7 @@ type C16Case struct {
 	Plan  C16Plan `json:"plan"`
 	// Symlink: FILE is a symbolic link to the real file (in the same directory)
 	Symlink bool `json:"symlink,omitempty"`
+	CRLF    bool `json:"crlf,omitempty"`
 }
 
 func init() {
@@ -114,6 +115,11 @@ func genC16(t *rapid.T) any {
 		}
 	}
 	c.Symlink = rapid.IntRange(0, 3).Draw(t, "symlink") == 3
+	if rapid.IntRange(0, 4).Draw(t, "crlf") == 4 {
+		// a file saved with CR LF line endings (comments and long strings keep their carriage return)
+		c.Src = strings.ReplaceAll(strings.ReplaceAll(c.Src, "\r\n", "\n"), "\n", "\r\n")
+		c.CRLF = true
+	}
 	return c
 }
 
@@ -165,6 +171,9 @@ func checkC16(raw json.RawMessage) iso.Result {
 	col.Label("class:"+c.Class, "plan:"+c.Plan.Kind)
 	if c.Symlink {
 		col.Label("file:symlink")
+	}
+	if c.CRLF {
+		col.Label("file:crlf")
 	}
 	if c.Plan.Kind == "fsize" {
 		col.Label(fmt.Sprintf("fsize:%d", c.Plan.FSize))
